@@ -589,15 +589,23 @@ Definition size_ok (N : Z) : bool := PrimFloat.eqb (frecipZ N N) 1%float.
 Definition check_size (N : nat) : bool :=
   negb (size_ok (Z.of_nat N)) || forallb (fun c => flags_ok (Z.of_nat c) (Z.of_nat N)) (seq 0 (S N)).
 Definition check_upto (B : nat) : bool := forallb check_size (seq 1 B).
-Lemma check_1024 : check_upto 1024 = true.
-Proof. vm_compute. reflexivity. Qed.
+Lemma check_1024 : forallb check_size (seq 1 1024) = true.
+Proof. vm_cast_no_check (eq_refl true). Qed.
 
+Lemma forallb_seq (f : nat -> bool) a n : forallb f (seq a n) = true -> forall i, (a <= i < a + n)%nat -> f i = true.
+Proof. intros H i Hi. rewrite forallb_forall in H. apply H, in_seq, Hi. Qed.
+Lemma check_size_spec (Nn : nat) : check_size Nn = true -> size_ok (Z.of_nat Nn) = true ->
+  forall cn, (cn <= Nn)%nat -> flags_ok (Z.of_nat cn) (Z.of_nat Nn) = true.
+Proof.
+  unfold check_size. intros H Hs cn Hc. rewrite Hs in H. cbn [negb orb] in H. apply (forallb_seq _ _ _ H). lia.
+Qed.
 Lemma flags_ok_1024 (c N : Z) : 1 <= N <= 1024 -> 0 <= c <= N -> size_ok N = true -> flags_ok c N = true.
 Proof.
-  intros HN Hc Hs. pose proof check_1024 as H. unfold check_upto in H. rewrite forallb_forall in H.
-  specialize (H (Z.to_nat N)). rewrite in_seq in H. assert (E : check_size (Z.to_nat N) = true) by (apply H; lia).
-  unfold check_size in E. rewrite Z2Nat.id in E by lia. rewrite Hs in E. cbn [negb orb] in E.
-  rewrite forallb_forall in E. specialize (E (Z.to_nat c)). rewrite in_seq, Z2Nat.id in E by lia. apply E. lia.
+  intros HN Hc Hs.
+  assert (E : check_size (Z.to_nat N) = true).
+  { apply (forallb_seq check_size 1 1024 check_1024). split; [lia|]. apply Nat2Z.inj_lt. rewrite Z2Nat.id by lia. rewrite Nat2Z.inj_add. replace (Z.of_nat 1024) with 1024 by (vm_compute; reflexivity). lia. }
+  pose proof (check_size_spec (Z.to_nat N) E) as F. rewrite Z2Nat.id in F by lia.
+  specialize (F Hs (Z.to_nat c)). rewrite Z2Nat.id in F by lia. apply F. apply Nat2Z.inj_le. rewrite !Z2Nat.id by lia. lia.
 Qed.
 
 Lemma eqb_prop_true a b : Bool.eqb a b = true -> a = b. Proof. apply Bool.eqb_prop. Qed.
